@@ -1296,6 +1296,20 @@ theorem hyps_qDef :
   · rw [hdz, hlam]; simp only [RunBounds.qDef]; norm_num
   all_goals (simp only [RunBounds.qDef, SnowIn.T_eq_l, SnowIn.T_m, lit_real]; norm_num)
 
+/-- the hypotheses of `solid_weights_nonneg` (hence the sign hypotheses of `maxprinciple_solid_partial`
+at every node with `j ≥ 2`) on the default configuration: water/ice conductivities `0.598 ≤ k ≤ 2.25`,
+`λ_i ≤ 4 λ_w`, and `r_2 ≥ 2·dr` on the code's radial grid -/
+theorem solid_hyps_pDef :
+    (0 : ℝ) < pDef.lambda_w ∧ pDef.lambda_i ≤ 4 * pDef.lambda_w ∧ pDef.lambda_i ≤ 5 * pDef.lambda_w
+      ∧ 2 * (mkCtx pDef {}).dr ≤ rd1 (mkCtx pDef {}).rA 2 := by
+  refine ⟨by simp only [pDef]; norm_num, by simp only [pDef]; norm_num, by simp only [pDef]; norm_num, ?_⟩
+  have e : rd1 (mkCtx pDef {}).rA 2 = (2 : ℝ) * (radius pDef / ((pDef.Nr - 1 : Nat) : ℝ)) := by
+    simp [mkCtx, rs, linspace0, rd1, Array.getD, pDef]
+  have hdr : (mkCtx pDef {}).dr = radius pDef / (pDef.Nr : ℝ) := by simp [mkCtx, dr]
+  rw [e, hdr]
+  simp only [radius, pDef, two, ofNat'_real]
+  norm_num
+
 /-- **non-vacuity**: the named hypotheses of the registered theorems are instantiated on the
 default configuration — `Stab`/`StabCtx` (CFL, both Biot numbers, radial grid), `DerivedOK`,
 hence `SolOK`, for the 2D model (`pDef`); the 0D/1D hypotheses on `qDef` (`hyps_qDef`); the
